@@ -1237,7 +1237,10 @@ func init() {
 			start = 0
 		}
 		checked, bad := c13sweepF32(start, *f32count, time.Duration(*f32budget)*time.Second)
-		for _, b := range bad {
+		for i, b := range bad {
+			if i >= 2000 {
+				break // enough witnesses; the count is in the stats
+			}
 			c13emitF32(o, b, st)
 		}
 		// tie the sweep's inlined formatting to operand.F32.Asm on a sample
